@@ -203,6 +203,12 @@ def function_hoists(ctx):
         ("def rot(x, y, z, d):\n    if d > 0:\n        return rot(y, z, x, d - 1)\n    return x * 100 + y * 10 + z\n", ["rot(1, h, 3, 1)", "rot(1, h, 3, 2)", "rot(1, 2, h, 4)"]),
         ("def down(x, d):\n    if d > 0:\n        return down(x * h, d - 1)\n    return x\n", ["down(8, 2)", "down(wi, 1)", "down(h, 3)"]),
         ("def pick(a, b, d):\n    t = a + b\n    if d > 0:\n        t = pick(b, a, d - 1)\n    return t\n", ["pick(1, h, 1)", "pick(1, h, 2)", "pick(h, 1, 1)"]),
+        # the result of the recursive call (wider than the int arguments) is FIRST kept in a local, or handed on to another helper
+        ("def grow(x, d):\n    if d == 0:\n        return x * 0.5\n    t = grow(x, d - 1)\n    return t + 1\n", ["grow(3, 2)", "grow(h, 2)", "grow(wi, 1)", "grow(3, 0)"]),
+        ("def half(v):\n    return v * 0.5\ndef chain(d):\n    if d == 0:\n        return 3.0\n    return half(chain(d - 1))\n", ["chain(2)", "chain(1)", "chain(0)", "half(3)"]),
+        ("def mean_down(d):\n    if d == 1:\n        return 1.0\n    rest = mean_down(d - 1)\n    rest = rest + d\n    return rest * 0.5\n", ["mean_down(3)", "mean_down(1)", "mean_down(wi)"]),
+        ("def acc(x, d):\n    if d == 0:\n        return x / 4.0\n    part = acc(x, d - 1)\n    total = part + x\n    return total\n", ["acc(2, 2)", "acc(wi, 1)", "acc(h, 1)"]),
+        ("def twice(v):\n    return v + v\ndef walk(d):\n    if d == 0:\n        return 0.25\n    inner = walk(d - 1)\n    return twice(inner)\n", ["walk(3)", "walk(0)", "twice(2)"]),
     ]:
         for k in range(1, len(calls) + 1):
             for sel in ([calls[:k]] if k < len(calls) else [calls, calls[::-1]]):
